@@ -69,6 +69,7 @@ def reads_payload(prog, g, pidx):
 
 def init_rmw(prog, res, f):
     R = "O-INIT-RMW"
+    res.touched(f)
     maps = []
     for b, i, s in f.all_stmts():
         for c in ir.calls_in(s):
